@@ -156,7 +156,7 @@ RULES = {
     "C18": "seeded plans: 2-4 tasks x 2-6 ops of grow(d in {0,1,2,max,max+1})/size/touch on one shared memory (1..6 pages); schedules drawn by random walk or PCT with preemption at every instrumented load/store, atomic and lock operation; a run is non-trivial when >=1 context switch happened inside the workload; distinct = distinct interleaving hash (task, yield kind, object at every switch)",
     "C16": "seeded plans: 1-4 tasks x 3-15 atomic ops (all 63 flavours, two static offsets, mixed widths on 1-2 hot 8-byte words, operands with junk above the access width); LE build (builtins, with the store-buffer model for any access weaker than seq_cst) and forced-BE build (mutex based RMW); non-trivial = >=1 context switch; distinct = distinct interleaving hash",
     "C17": "seeded plans: 2-5 tasks x 1-6 ops of wait32/wait64/notify (static offset 0 and 24)/poke on 1-3 addresses (two colliding in the 1024-bucket map), timeouts {-1,0,us,ms,s}, spurious wake-ups, timer-vs-notify orderings, drain phase; non-trivial = >=1 context switch and >=1 condvar wait; distinct = distinct interleaving hash",
-    "C05": "fresh heap memory is pre-filled with 0xBE by the allocator (ASan malloc fill, unlimited size), so 'new pages zeroed' and 'initial memory zeroed' have to be established by the code under test; seeded single-task histories of 20-120 ops: 14 loads x 9 stores (offsets 0/16/65535, unaligned, page-straddling, last byte), 18 composite functions doing store / store of another type or width / load at one address (aligned and unaligned), size, grow (0,1,2,to-max,max+1,0xFFFF,0x10000,0xFFFFFFFF) with injected realloc failures, copy/fill/init; byte-array model compared after every op; non-trivial = >=5 executed operations; distinct = distinct plan seed",
+    "C05": "fresh heap memory is pre-filled with 0xBE by the allocator (ASan malloc fill, unlimited size), so 'new pages zeroed' and 'initial memory zeroed' have to be established by the code under test; seeded single-task histories of 20-120 ops: 14 loads x 9 stores (offsets 0/16/65535, unaligned, page-straddling, last byte), 18 composite functions doing store / store of another type or width / load at one address (aligned and unaligned), size, grow (0,1,2,to-max,max+1,0xFFFF,0x10000,0xFFFFFFFF) with injected realloc failures, copy/fill/init; byte-array model compared after every op; a quarter of the plans on the instrumented shared-memory build are concurrent (accesses within page 0 on one simulated thread, grows and size queries on another, preemption at every instrumented access; judged per thread in program order and on the final memory); non-trivial = >=5 executed operations; distinct = distinct plan seed",
     "C19": "C05-style histories and C16-style atomic histories executed on the build with WASM_ENDIAN forced to big-endian, against the byte-reversed reference model; non-trivial = >=5 executed operations (sequential histories) or >=1 context switch (atomic histories); distinct = distinct plan seed / interleaving hash",
 }
 
